@@ -38,7 +38,43 @@ Functions under contract (real text):
   NameEntry::{compile_unit, type_unit, die_offset, parent, type_hash}, NameAttribute::{..}   first attribute with that
                                                       DW_IDX_*; value shape required by DWARF 5 table 6.1
 
-See the end of this docstring for findings, assumptions and what is not decided.
+  index base: `NameTableIndex` is 0-based (documented); the 1-based bucket values of the data are adjusted in
+  `NameBucketIter::new` (batch index); string / entry offset tables are indexed by `index.0 * offset_size`, valid iff
+  `index.0 < name_count` ([C17:names-string-offset*], [C17:names-entry-series*]).
+
+FINDING F-names-1 (open, low severity; native/src/bin/f_names_1.rs): `NameIndex::type_unit_count` adds the two hostile u32 header
+  counts unchecked (`local_type_unit_count + foreign_type_unit_count`).  `NameIndex::new` accepts every pair of counts whose
+  lists fit into the unit, and a 64-bit-format unit may be large enough (>= 32 GiB: local = 0xffff_ffff, foreign = 1), so the
+  sum overflows: panic in debug builds, 0 in release builds (the documented bound of `type_unit` then excludes every index).
+  The reproducer maps a sparse file; `new` succeeds, both lists are readable, `type_unit_count()` panics.  This is the one
+  obligation (built-in overflow check, owner C01) with which `python3 vx/run.py names` exits 1 on the current tree.
+  Minimal fix: reject in `NameIndex::new` when `u64::from(local) + u64::from(foreign) > u32::MAX` (then add that bound to
+  `wf_tables()` and `requires self.wf_tables()` on `type_unit_count`), or return u64.
+  All other `count * size` products are computed in u64 from u32 x {4, 8} and cannot overflow (proved), the tables are split
+  off one after another so no sum of sizes is ever formed, and `index * size` in the accessors is u32 x u8 in u64 (proved).
+
+Observations (no failing obligation): the header's 2 padding bytes ("reserved, must be zero") are skipped unchecked;
+  augmentation_string_size need not be a multiple of 4 (the code pads, which also accepts the standard's rounded-up form);
+  duplicate abbreviation codes are accepted and the first declaration wins (`get`; `.debug_abbrev` parsing rejects duplicates,
+  `.debug_names` does not); DW_IDX_parent is decoded as reference-or-flag_present (LLVM practice; DWARF 5 table 6.1 says
+  "constant"); values > u16::MAX for tag / index attribute / form are rejected by the u16 LEB128 reader.
+
+Assumed (TRUSTED): core's ledger + `get` (NameAbbreviations::get is `self.abbreviations.iter().find(|a| a.code == code)`, an
+  iterator adaptor with a closure: outside Verus' subset; assumed contract [C17:names-abbrev-get]: a front-to-back search returns
+  the first declaration with that code, i.e. `ndecl_find`).  `unsafe impl Structural for DwIdx` (prelude text): derive(PartialEq)
+  on the dw! newtype is structural equality.  Two verified strengthenings of core items are reused from index.py
+  (strengthen_core).  Rewrites beyond the standard rules, all logged: R-CLONE (reader clones), R-CTORFN (`.map(Some)`,
+  `.map(DebugInfoOffset)`, .. eta-expanded with a verified ensures), R-CLOSURE-ENS (`.map_err(|_| Error::X(val))`), R-IMPL
+  (`impl Iterator for NameTableIter` -> contract-less twin trait), R-DROP (find_by_bucket / find_by_hash: batch index;
+  name_string: needs DebugStr).
+
+Not decided here: NameBucketIter / NameHashIter (batch index; its assumption `NameIndex::wf()` is proved here by `new`),
+  case_folding_djb_hash, `NameIndex::name_string` (DebugStr lookup), the `Iterator` / `FallibleIterator` adaptor impls of
+  NameIndexHeaderIter / NameEntryIter (`next().transpose()`, one-line delegations that inherit the protocol), DebugNames::{new,
+  borrow, from} plumbing, acceptance ("no spurious rejection") of abbreviation tables and LEB128-sized entry values (core's LEB128
+  contracts characterise Ok, not Err), semantic checks across tables (entry offsets pointing at entry starts, parent links
+  acyclic, CU/TU indices of entries in range until they are looked up), readers with Offset != usize (A-OFFSET), agreement with
+  llvm-dwarfdump --debug-names.
 """
 import re
 from lib import *
@@ -424,7 +460,6 @@ use crate::vspec_names::*;""")
     # ---- NameIndexHeader
     B0, B1 = 'old(input).rv()', 'final(input).rv()'
     hd = nm.item(r'^impl<R: Reader> NameIndexHeader<R>', label='NameIndexHeader')
-    hd.drop(['augmentation_string'])      # Option::as_ref (no vstd spec); accessor only
     hd.clean().own(OWN)
     PAD = ('proof { let x = augmentation_string_size; assert(x & 3u32 == x % 4u32) by (bit_vector); '
            'assert(forall|y: u32| (y & 3u32) == y % 4u32) by (bit_vector); }')
@@ -441,6 +476,7 @@ use crate::vspec_names::*;""")
                     ('bucket_count', 'res == self.v_bucket_count()'), ('name_count', 'res == self.v_name_count()'),
                     ('abbrev_table_size', 'res == self.v_abbrev_size()')]:
         hd.splice(acc, ret='res', ensures=['[C17:names-header-accessor] ' + gh])
+    hd.splice('augmentation_string', ret='res', ensures=['[C17:names-header-accessor] (res matches Some(r) ==> self.v_aug() == Some(r.rv())) && (res is None ==> self.v_aug() is None)'])
     hd.splice('index', ret='res', ensures=new_clauses('self'))
     sk.add('read::names', hd)
 
@@ -492,12 +528,16 @@ def populate_abbrev(ctx, sk, nm):
         '[C17:names-abbrev-table] res matches Ok(t) ==> t.decls() =~= ndecls(reader.rv(), 0)',
         '[C17:names-abbrev-wf] res matches Ok(t) ==> forall|i: int| 0 <= i < t.decls().len() ==> ndecl_wf(#[trigger] t.decls()[i])',
     ], loops={
-        0: (f'invariant_except_break within({V0}, reader.rv()), ndecls({V0}, 0) =~~= {LSP} + ndecls({V0}, {CUR}), {DWF},\n'
-            f' ensures ndecls({V0}, 0) =~~= {LSP}, {DWF},\n decreases reader.rv().len'),
-        1: (f'invariant_except_break within({V0}, reader.rv()), verif_q0 <= {CUR}, nattrs({V0}, verif_q0) =~= {ASP} + nattrs({V0}, {CUR}), '
-            f'nattrs_end({V0}, verif_q0) == nattrs_end({V0}, {CUR}), {AWF},\n'
-            f' ensures within({V0}, reader.rv()), verif_q0 <= {CUR}, nattrs({V0}, verif_q0) =~= {ASP}, nattrs_end({V0}, verif_q0) == {CUR}, {AWF},\n'
-            ' decreases reader.rv().len'),
+        # (every clause on its own line, tagged with the postcondition it feeds: a mutant then fails under that tag)
+        0: (f'invariant_except_break\n within({V0}, reader.rv()), // [C17:names-abbrev-table]\n'
+            f' ndecls({V0}, 0) =~~= {LSP} + ndecls({V0}, {CUR}), // [C17:names-abbrev-table]\n {DWF}, // [C17:names-abbrev-wf]\n'
+            f' ensures\n ndecls({V0}, 0) =~~= {LSP}, // [C17:names-abbrev-table]\n {DWF}, // [C17:names-abbrev-wf]\n decreases reader.rv().len'),
+        1: (f'invariant_except_break\n within({V0}, reader.rv()), // [C17:names-abbrev-table]\n verif_q0 <= {CUR}, // [C17:names-abbrev-table]\n'
+            f' nattrs({V0}, verif_q0) =~= {ASP} + nattrs({V0}, {CUR}), // [C17:names-abbrev-table]\n'
+            f' nattrs_end({V0}, verif_q0) == nattrs_end({V0}, {CUR}), // [C17:names-abbrev-table]\n {AWF}, // [C17:names-abbrev-wf]\n'
+            f' ensures\n within({V0}, reader.rv()), // [C17:names-abbrev-table]\n verif_q0 <= {CUR}, // [C17:names-abbrev-table]\n'
+            f' nattrs({V0}, verif_q0) =~= {ASP}, // [C17:names-abbrev-table]\n nattrs_end({V0}, verif_q0) == {CUR}, // [C17:names-abbrev-table]\n'
+            f' {AWF}, // [C17:names-abbrev-wf]\n decreases reader.rv().len'),
     }, before=[
         ('let mut abbreviations = Vec::new();', f'let ghost {V0} = reader.rv();'),
         ('let code = reader.read_uleb128()?;', f'let ghost verif_p = {CUR};'),
@@ -529,7 +569,7 @@ def populate_index(ctx, sk, nm):
               before=[('let cu_list_size =', PROD),
                       ('let mut reader = header.content;', 'let ghost verif_c = header.content.rv();')],
               after=[('let abbreviation_table = reader.split(R::Offset::from_u64(abbrev_size)?)?;',
-                      'proof { assert(abbreviation_table.rv() == window_of(verif_c, header.geom().off_abbrev(), header.geom().ab)); }')])
+                      'proof { assert(abbreviation_table.rv() == window_of(verif_c, header.geom().off_abbrev(), header.geom().ab)); } // [C17:names-layout][C17:names-abbrev-table]')])
     WS = 'self.ws()'
     FITS = lambda T, p: f'(self.v_format() == Format::Dwarf64 && !R::Offset::fits({T}.u({p}, 8) as u64))'
     def table_get(fn, count, T, val, tag, ws=WS):
@@ -670,9 +710,9 @@ def populate_entries(ctx, sk, nm):
         f'[C01:frame] within({B0}, {F})',
         f'[C01:progress] res is Ok ==> {F}.len < {B0}.len',
     ] + with_pre('res matches Ok(Some(e))', entry_clauses(B0, F, D, 'e', 'offset.0')),
-        loops={0: f'invariant attrs@.len() == verif_it.index@, specs@ == abbrev.v_attrs(), verif_b0 == old(entry_reader).rv(), within(verif_b0, entry_reader.rv()), entry_reader.rv().start > verif_b0.start, '
-                  f'entry_reader.rv().start - verif_b0.start == nvals_pos(verif_b0, {P1}, {DA}, verif_it.index@ as int), '
-                  f'forall|i: int| 0 <= i < attrs@.len() ==> nattr_decoded(#[trigger] attrs@[i], {DA}[i], verif_b0, nvals_pos(verif_b0, {P1}, {DA}, i)),'},
+        loops={0: f'invariant attrs@.len() == verif_it.index@, specs@ == abbrev.v_attrs(), verif_b0 == old(entry_reader).rv(), within(verif_b0, entry_reader.rv()), entry_reader.rv().start > verif_b0.start,\n'
+                  f' entry_reader.rv().start - verif_b0.start == nvals_pos(verif_b0, {P1}, {DA}, verif_it.index@ as int), // [C17:names-entry-consume]\n'
+                  f' forall|i: int| 0 <= i < attrs@.len() ==> nattr_decoded(#[trigger] attrs@[i], {DA}[i], verif_b0, nvals_pos(verif_b0, {P1}, {DA}, i)), // [C17:names-entry-values]\n'},
         before=[('let abbrev_code = entry_reader.read_uleb128()?;', 'let ghost verif_b0 = entry_reader.rv();'),
                 ('let tag = abbrev.tag();', f'proof {{ lemma_ndecl_find({D}, abbrev_code as nat); }}')])
     AK = 'self.attrs@[k].v_value().sv()'
@@ -705,8 +745,8 @@ def populate_entries(ctx, sk, nm):
             f'[C17:names-entry-attr-first] res is Err ==> {FIRST} is Some',
         ] + [c.replace('{FIRST}', FIRST) for c in extra],
             loops={0: f'invariant forall|j: int| 0 <= j < verif_it.index@ ==> (#[trigger] self.attrs@[j]).v_name() != {idx},' + (' names.wf_tables(),' if req else '')},
-            before=[('return attr.', f'proof {{ lemma_nattr_first(self.attrs@, {idx}, verif_it.index@ as int); }}')],
-            after=[('}\n        }', f'proof {{ lemma_nattr_first(self.attrs@, {idx}, self.attrs@.len() as int); }}')])
+            before=[('return attr.', f'proof {{ lemma_nattr_first(self.attrs@, {idx}, verif_it.index@ as int); }} // [C17:names-entry-attr-first]')],
+            after=[('}\n        }', f'proof {{ lemma_nattr_first(self.attrs@, {idx}, self.attrs@.len() as int); }} // [C17:names-entry-attr-first]')])
     sk.add('read::names', ne)
 
     # ---- NameEntryIter
